@@ -42,6 +42,29 @@ func (e *Exec) intrinsic(st *State, fr *Frame, ci *callInfo) (Value, bool, bool)
 		used()
 		s, p := t1(0), t1(1)
 		return scalar(tString, Ite(App(SBool, "str.prefixof", p, s), App(SStr, "str.substr", s, App(SInt, "str.len", p), Sub(App(SInt, "str.len", s), App(SInt, "str.len", p))), s)), true, false
+	case "strings.CutPrefix":
+		// (after, found): the same string TrimPrefix returns, and whether the prefix was there
+		used()
+		s, p := t1(0), t1(1)
+		has := App(SBool, "str.prefixof", p, s)
+		after := Ite(has, App(SStr, "str.substr", s, App(SInt, "str.len", p), Sub(App(SInt, "str.len", s), App(SInt, "str.len", p))), s)
+		return Value{T: ci.sig.Results(), Tup: []Value{scalar(tString, after), scalar(tBool, has)}}, true, false
+	case "strings.CutSuffix":
+		used()
+		s, p := t1(0), t1(1)
+		has := App(SBool, "str.suffixof", p, s)
+		before := Ite(has, App(SStr, "str.substr", s, Zero, Sub(App(SInt, "str.len", s), App(SInt, "str.len", p))), s)
+		return Value{T: ci.sig.Results(), Tup: []Value{scalar(tString, before), scalar(tBool, has)}}, true, false
+	case "strings.Cut":
+		// (before, after, found) around the first occurrence of sep
+		used()
+		s, sep := t1(0), t1(1)
+		i := e.define(st, "cut.idx", App(SInt, "str.indexof", s, sep, Zero))
+		found := Ge(i, Zero)
+		before := Ite(found, App(SStr, "str.substr", s, Zero, i), s)
+		rest := Add(i, App(SInt, "str.len", sep))
+		after := Ite(found, App(SStr, "str.substr", s, rest, Sub(App(SInt, "str.len", s), rest)), StrLit(""))
+		return Value{T: ci.sig.Results(), Tup: []Value{scalar(tString, before), scalar(tString, after), scalar(tBool, found)}}, true, false
 	case "strings.TrimSuffix":
 		used()
 		s, p := t1(0), t1(1)
@@ -196,7 +219,7 @@ func (e *Exec) intrinsic(st *State, fr *Frame, ci *callInfo) (Value, bool, bool)
 				continue
 			}
 			fv := fieldOf(nv, i)
-			env := &SpecEnv{e: e, st: st, vars: map[string]Value{}, pkg: fr.fn.Pkg.Pkg, what: "nested " + c.Key}
+			env := &SpecEnv{e: e, st: st, vars: map[string]Value{}, pkg: e.pkgOfFrame(fr), what: "nested " + c.Key}
 			if fn := e.eng.funcs[c.Key]; fn != nil && len(fn.Params) > 0 {
 				env.vars[fn.Params[0].Name()] = fv
 			}
@@ -265,7 +288,7 @@ func (e *Exec) intrinsic(st *State, fr *Frame, ci *callInfo) (Value, bool, bool)
 		st.assert(Term{fmt.Sprintf("(forall ((%s Int)) (! (=> %s (and (> %s %s) (<= %s %s))) :pattern (%s)))", q, rng(q).S, el(q).S, before.S, el(q).S, nt.S, el(q).S), SBool})
 		st.assert(Term{fmt.Sprintf("(forall ((%s Int) (%s Int)) (! (=> (and %s %s (not (= %s %s))) (not (= %s %s))) :pattern (%s %s)))", q, q2, rng(q).S, rng(q2).S, q, q2, el(q).S, el(q2).S, el(q).S, el(q2).S), SBool})
 		fv := Value{T: slt.Elem(), L: []Term{el(q)}}
-		env := &SpecEnv{e: e, st: st, vars: map[string]Value{}, pkg: fr.fn.Pkg.Pkg, what: "decoded " + uc.Key, oldTop: before, oldNow: st.now}
+		env := &SpecEnv{e: e, st: st, vars: map[string]Value{}, pkg: e.pkgOfFrame(fr), what: "decoded " + uc.Key, oldTop: before, oldNow: st.now}
 		if fn := e.eng.funcs[uc.Key]; fn != nil && len(fn.Params) > 0 {
 			env.vars[fn.Params[0].Name()] = fv
 		}
@@ -937,6 +960,12 @@ func (e *Exec) goSpawn(st *State, fr *Frame, ci *callInfo, pos token.Pos) {
 				e.storeGhost(st, "spawned:"+c.Key, SBool, x.L[0], True)
 			}
 		}
+		// the per-child value may equally be passed as an argument: go f(x)
+		for i, p := range ci.fn.Params {
+			if p.Name() == fv && i < len(ci.args) && len(ci.args[i].L) == 1 {
+				e.storeGhost(st, "spawned:"+c.Key, SBool, ci.args[i].L[0], True)
+			}
+		}
 		return
 	}
 	e.abstractions["go "+name+": spawned body verified separately (if under contract); parent continues"] = true
@@ -986,8 +1015,13 @@ func (e *Exec) joinSpawned(st *State, fr *Frame, wg Value, pos token.Pos) {
 		e.declareFun(finish, []Sort{SInt}, SInt)
 		fx := App(SInt, finish, xT)
 		// what the children may have written: whole arrays of their assigns
-		env := &SpecEnv{e: e, st: st, vars: map[string]Value{}, pkg: fr.fn.Pkg.Pkg, trace: nil, what: "join " + k.c.Key}
+		env := &SpecEnv{e: e, st: st, vars: map[string]Value{}, pkg: e.pkgOfFrame(fr), trace: nil, what: "join " + k.c.Key}
 		fvName := k.c.Attrs["forkjoin"]
+		for _, p := range k.fn.Params {
+			if p.Name() == fvName {
+				env.vars[p.Name()] = Value{T: p.Type(), L: []Term{xT}}
+			}
+		}
 		for i, fv := range k.fn.FreeVars {
 			pt, ok := fv.Type().(*types.Pointer)
 			if !ok {
